@@ -1859,7 +1859,8 @@ class Data(BaseCartesianData):
                     if axis is None:
                         return np.nan
                     else:
-                        if isinstance(axis, int):
+                        # Note that axis could also be a Numpy integer
+                        if not isinstance(axis, (tuple, list)):
                             axis = [axis]
                         final_shape = [mask.shape[i] for i in range(mask.ndim) if i not in axis]
                         return np.broadcast_to(np.nan, final_shape)
